@@ -1,242 +1,876 @@
-"""C19 state/save is transparent and collects exactly what was saved (structural clauses, DESIGN §4-C19)."""
+"""C19 state/save is transparent and collects exactly what was saved (structural clauses, DESIGN §4-C19).
+
+Every rule here is decided on the symbolic evaluator's output (terms and guarded event log), evaluated over small finite
+models (absint): an empty / one-deep / two-deep namespace stack, one / two / three tagged values, the name carried by the
+outer or by the wrapped primitive.  For each model the *effects* of the interpreter arm are computed (which slot of the
+collected-state dictionary is written with which value, what happens to the namespace stack, what the equation's outputs
+are) and compared with the contract.  Renaming, extracting helpers, early returns, collapsing `if path: nested(path) else:
+root` into `nested(path)` and similar rewrites leave the effects - and therefore the verdict - unchanged."""
 from __future__ import annotations
 
-import ast
-
+from ..absint import Model, Opq, Atom as AtomV, Raised, Unknown, freeze, truth
 from ..model import AnalysisError
-from .util import mk_ev, mk_lin, summarize, func_loc, short, N, C, NONE, is_call, items
-from .pjaxr import branches_of, classify_branch, fnode, unp
-from ..symeval import subterms
+from ..symeval import subterms, is_const, C, NONE
+from .util import mk_ev, summarize, func_loc, short, is_call, items
 
-EXPLANATION = ("Who-writes-where rule over every store into the collected-state dictionary (relative to the namespace stack), pairing rule for "
-               "namespace push/pop (finally), transparency of the interpreter (tagged values pass through, other primitives re-bound unchanged, scan re-issued "
-               "with the same length/reverse and stacked body state), writer/reader agreement on the leaf-mode sentinel, batch-rule out-dims.")
+EXPLANATION = ("Finite-model effect analysis of the State interpreter's arms (which dictionary slot is written with which value relative to the "
+               "namespace stack; pass-through of tagged values; stack discipline; other primitives re-bound unchanged; scan re-issued with the same "
+               "length/reverse, its stacked body state merged under the enclosing namespaces), of _nested_dict_set/_get, of the namespace wrapper's "
+               "push/try/finally-pop pairing, of tag_state/save (writer/reader agreement on the leaf sentinel, batch rules).")
 
 ST = "genjax.state."
+PJ = "genjax.pjax."
+SELF = ("param", "self")
+CS = ("attr", SELF, "collected_state")
+NS = ("attr", SELF, "namespace_stack")
+CSV = Opq("collected_state")
 
 
-def store_sites(ctx, rule="OWN-namespace-relative-store"):
-    node, mod, loop, chain, orelse = branches_of(ctx, ST + "State.eval_jaxpr_state")
-    kinds = {}
-    for t, b, n in chain:
-        for k in classify_branch(t):
-            kinds[k] = (b, n)
-    need = {"state", "push", "pop", "scan"}
-    if set(kinds) & need != need:
-        ctx.bad("EXH-state-dispatch", "state.State.eval_jaxpr_state", f"handles {sorted(kinds)}", f"interpreter must special-case {sorted(need)}; found {sorted(kinds)}", ctx.loc(mod, loop))
-        return
-    ctx.ok("EXH-state-dispatch", "state.State.eval_jaxpr_state", f"handles {sorted(set(kinds) & need)}")
-    # --- tagged values: named and leaf stores are relative to the namespace stack
-    body, n = kinds["state"]
-    src = "\n".join(unp(s) for s in body)
-    construct = "state.State.eval_jaxpr_state[state_p]"
-    prov = {}
-    for st in ast.walk(ast.Module(body=body, type_ignores=[])):
-        if isinstance(st, ast.Assign) and len(st.targets) == 1:
-            prov.setdefault(unp(st.targets[0]), []).append(unp(st.value))
-    failed = False
+# ---------------------------------------------------------------------------------------------------------------- helpers
+def flat(x):
+    if isinstance(x, (list, tuple)):
+        out = []
+        for y in x:
+            out.extend(flat(y))
+        return out
+    if isinstance(x, dict):
+        out = []
+        for k in sorted(x, key=repr):
+            out.extend(flat(x[k]))
+        return out
+    if x is None:
+        return []
+    return [x]
 
-    def bad(key, what, nn=n):
-        nonlocal failed
-        failed = True
-        ctx.bad(rule, construct, key, what, ctx.loc(mod, nn))
 
-    if "tuple(self.namespace_stack)" not in prov.get("namespace_path", [""])[0]:
-        bad("namespace path = the interpreter's current stack", f"namespace_path = {prov.get('namespace_path')}")
-    # named mode
-    named = [c for st in body for c in ast.walk(st) if isinstance(c, ast.Call) and unp(c.func) == "_nested_dict_set"]
-    if len(named) != 1 or [unp(a) for a in named[0].args] != ["self.collected_state", "namespace_path", "name", "value"]:
-        bad("named store under the namespace path", f"found {[unp(c) for c in named]}")
-    root = [st for s_ in body for st in ast.walk(s_) if isinstance(st, ast.Assign) and unp(st.targets[0]) == "self.collected_state[name]"]
-    for st in root:
-        # must sit in the else-branch of `if namespace_path`
-        ok = any(isinstance(i, ast.If) and unp(i.test) == "namespace_path" and any(x is st for y in i.orelse for x in ast.walk(y)) for s_ in body for i in ast.walk(s_))
-        if not ok or unp(st.value) != "value":
-            bad("root-level store only when the namespace stack is empty", f"found `{unp(st)}` outside `if namespace_path: … else:`", st)
-    # value: single value or tuple of several
-    if prov.get("value", [""])[0].replace(" ", "").replace("(", "").replace(")", "") != "tuplevaluesiflenvalues>1elsevalues[0]ifvalueselseNone":
-        bad("collected value = the tagged value(s)", f"value = {prov.get('value')}")
-    if prov.get("values", [""])[0] not in ("list(invals) if invals else []", "list(invals)"):
-        bad("collected values = the equation's inputs", f"values = {prov.get('values')}")
-    if "outvals = values" not in src:
-        bad("tagged values pass through unchanged", "outvals != values")
-    # leaf mode: sentinel agreement and store at path[-1] under path[:-1]
-    sn, smod = fnode(ctx, ST + "save")
-    sent_w = [unp(k.value) for c in ast.walk(sn) if isinstance(c, ast.Call) and unp(c.func) == "tag_state" for k in c.keywords if k.arg == "name" and isinstance(k.value, ast.Constant)]
-    sent_r = [unp(i.test.comparators[0]) for s_ in body for i in ast.walk(s_) if isinstance(i, ast.If) and isinstance(i.test, ast.Compare) and unp(i.test.left) == "name"
-              and isinstance(i.test.comparators[0], ast.Constant) and isinstance(i.test.ops[0], ast.Eq) and isinstance(i.test.comparators[0].value, str)]
-    if len(sent_w) != 1 or sent_w != sent_r:
-        bad("leaf-mode sentinel agrees between save() and the interpreter", f"writer {sent_w} vs reader {sent_r}")
-    if "current[namespace_path[-1]] = value" not in src or "for namespace in namespace_path[:-1]" not in src:
-        bad("leaf store at the innermost namespace under its parents", "leaf-mode store shape changed")
-    if not failed:
-        ctx.ok(rule, construct, "named, root and leaf stores are all relative to the namespace stack")
-    # --- scan: merge of the stacked body state
-    body, n = kinds["scan"]
-    construct = "state.State.eval_jaxpr_state[scan_p]"
-    # decided on the evaluator's guarded store events: where do the scan's collected values go?
-    ev = mk_ev(ctx)
-    summ = summarize(ctx, ev, ST + "State.eval_jaxpr_state")
-    SELF_ = ("param", "self")
-    cs, ns = ("attr", SELF_, "collected_state"), ("attr", SELF_, "namespace_stack")
-    merges = []
-    for g, k, pl, ln, q in summ.events:
-        scanned = any(isinstance(c, tuple) and any(x == ("name", "jax.lax.scan_p") for x in subterms(c)) and v for c, v in g)
-        if not scanned:
+def split_list(lst, ns):
+    if isinstance(lst, Opq) or any(not isinstance(n, int) for n in ns):
+        return Opq("split_list", freeze(lst) if not isinstance(lst, Opq) else lst, tuple(ns))
+    lst = list(lst)
+    out = []
+    for n in ns:
+        out.append(lst[:n])
+        lst = lst[n:]
+    out.append(lst)
+    return out
+
+
+FUNCS = {"jax.tree_util.tree_leaves": lambda x, **kw: flat(x), "jax._src.util.split_list": split_list, "jax.util.split_list": split_list,
+         "jax.tree.leaves": lambda x, **kw: flat(x)}
+
+
+def seq_eq(a, b):
+    """Equality of model values where a list and a tuple with equal items are interchangeable."""
+    if isinstance(a, (list, tuple)) and isinstance(b, (list, tuple)):
+        return len(a) == len(b) and all(seq_eq(x, y) for x, y in zip(a, b))
+    if isinstance(a, (list, tuple)) or isinstance(b, (list, tuple)):
+        return False
+    try:
+        return bool(a == b)
+    except Unknown:
+        return False
+
+
+def split_guards(guards, outer_loops=1):
+    """(guards outside any inner loop, guards inside the innermost loops, number of loop markers)."""
+    outer, inner, loops = [], [], 0
+    for c, v in guards:
+        if isinstance(c, tuple) and c and c[0] == "loop":
+            loops += 1
             continue
-        if k == "store" and any(x == cs for x in subterms(pl[0])):
-            merges.append((pl[0], any(x == ns for x in subterms(pl[0])), ln))
-        if k == "call" and is_call(pl, name=ST + "_nested_dict_set") and pl[2] and pl[2][0] == cs:
-            merges.append((pl, any(x == ns for x in subterms(pl)), ln))
-    if merges and not all(rel for _, rel, _ in merges):
-        ctx.bad(rule, construct, "scan merge stores at the root",
-                "values saved inside a scan body are merged with `self.collected_state[name] = …` at the root, ignoring the enclosing namespace stack "
-                "(and the nested state(body_fun) starts from an empty stack); input: state(namespace(lambda: scan(body_with_save, …), 'ns'))", f"{mod.path}:{merges[0][2]}")
-    elif merges:
-        ctx.ok(rule, construct, "scan merge is relative to the enclosing namespace stack")
-    else:
-        ctx.bad(rule, construct, "scan state merged", "values saved inside scan bodies are never merged into the collected state", ctx.loc(mod, n))
-    # scan re-issued faithfully, body state stacked as part of ys
-    src = "\n".join(unp(s) for s in body)
-    okscan = ("length=length" in src and "reverse=reverse" in src and "return (out_carry, (out_scan, body_state))" in src
-              and "state(body_fun)(*all_values)" in src and "split_list(jtu.tree_leaves(body_result), [num_carry])" in src
-              and "outvals = jtu.tree_leaves((flat_carry_out, scanned_out))" in src and "scan(new_body, carry_vals, xs_vals" in src.replace("\n", " "))
-    if okscan:
-        ctx.ok("ROLE-state-scan", construct, "same length/reverse; ys = (original ys, collected state) so saved values are stacked along the iteration axis")
-    else:
-        ctx.bad("ROLE-state-scan", construct, "scan re-issued with same length/reverse and (ys, body_state) outputs", "shape changed", ctx.loc(mod, n))
-    # --- push / pop mutate only the stack
-    for k, meth in (("push", "append"), ("pop", "pop")):
-        body, n = kinds[k]
-        src = " ".join(unp(s) for s in body)
-        ok = f"self.namespace_stack.{meth}(" in src and "outvals = []" in src and "collected_state" not in src
-        if ok:
-            ctx.ok("ROLE-namespace-stack", f"state.State.eval_jaxpr_state[{k}]")
+        (outer if loops <= outer_loops else inner).append((c, v))
+    return outer, inner, loops
+
+
+class Effects:
+    """Effects of a guarded event log in one model."""
+
+    def __init__(self, m: Model, ev, roots, outer_loops=1):
+        self.m, self.ev, self.roots, self.outer_loops = m, ev, roots, outer_loops
+        self.out = []
+        self.raised = False
+
+    def loc(self, t):
+        """(root value, path tuple) of the dictionary node a term denotes."""
+        m = self.m
+        if t in m.env:
+            return m.env[t], ()
+        if is_call(t, name=ST + "_nested_dict_get") and len(t[2]) >= 2:
+            root, pre = self.loc(t[2][0])
+            p = m.ev(t[2][1])
+            if not isinstance(p, (list, tuple)):
+                raise Unknown(f"path {p!r}")
+            return root, pre + tuple(p)
+        if t[0] == "loopres":
+            lid, var, init, step = t[1], t[2], t[3], t[4]
+            srcs = [x[2][2] for x in subterms(step) if x[0] == "idx" and x[1] == ("loopcur", lid, var) and x[2][0] == "iter" and x[2][1] == lid]
+            if not srcs:
+                raise Unknown("loop-carried dictionary cursor that does not descend by the iterated key")
+            root, pre = self.loc(init)
+            p = m.ev(srcs[0])
+            if not isinstance(p, (list, tuple)):
+                raise Unknown(f"path {p!r}")
+            return root, pre + tuple(p)
+        if t[0] == "idx" and t[2][0] != "slice":
+            root, pre = self.loc(t[1])
+            return root, pre + (m.ev(t[2]),)
+        if is_call(t) and t[1][0] == "attr" and t[1][2] == "setdefault" and len(t[2]) == 2 and t[2][1] in (("dict", ()), ("call", ("name", "builtins.dict"), (), ())):
+            root, pre = self.loc(t[1][1])
+            return root, pre + (m.ev(t[2][0]),)
+        return m.ev(t), ()
+
+    def tracked(self, root):
+        return any(isinstance(root, Opq) and root == r for r in self.roots)
+
+    def run(self, events):
+        m = self.m
+        for g, k, pl, ln, q in events:
+            if self.raised:
+                break
+            outer, inner, loops = split_guards(g, self.outer_loops)
+            if loops < self.outer_loops:
+                continue   # prologue/epilogue outside the equation loop
+            if not m.live(outer):
+                continue
+            in_loop = loops > self.outer_loops
+            if k == "raise":
+                if in_loop or inner:
+                    raise Unknown("raise inside an inner loop")
+                self.out.append(("raise",))
+                self.raised = True
+            elif k == "store":
+                self.store(pl, inner, in_loop, ln)
+            elif k == "call":
+                self.call(pl, inner, in_loop, ln)
+        return self.out
+
+    def store(self, pl, inner, in_loop, ln):
+        m = self.m
+        tgt, val = pl[0], pl[1]
+        if tgt == NS:
+            self.out.append(("setstack", m.ev(val)))
+            return
+        if tgt == CS:
+            self.out.append(("setcs", short(val, self.ev, 80)))
+            return
+        if tgt[0] != "idx":
+            return
+        base, key = tgt[1], tgt[2]
+        if not in_loop:
+            root, pre = self.loc(base)
+            if self.tracked(root):
+                self.out.append(("write", pre + (m.ev(key),), m.ev(val), ln))
+            return
+        # ---- inside an inner loop: two recognised idioms
+        lids = [x[1] for x in subterms(key) if x[0] == "iter"]
+        if val in (("dict", ()),) and key[0] == "iter":
+            # creating a missing intermediate node while walking a path: must be guarded by `key not in node`
+            guarded = any((c[0] == "cmp" and c[1] == "not in" and v and c[2] == key) or (c[0] == "cmp" and c[1] == "in" and not v and c[2] == key) for c, v in inner)
+            root = self.loc_root_only(base)
+            if self.tracked(root) and not guarded:
+                self.out.append(("clobber", short(tgt, self.ev, 80), ln))
+            return
+        if key[0] == "idx" and key[1][0] == "iter" and is_const(key[2], 0) and val == ("idx", key[1], C(1)):
+            src = key[1][2]
+            if is_call(src) and src[1][0] == "attr" and src[1][2] == "items":
+                root, pre = self.loc(base)
+                if self.tracked(root):
+                    self.out.append(("merge", pre, m.ev(src[1][1]), src[1][1], ln))
+                return
+        root = self.loc_root_only(base)
+        if self.tracked(root):
+            raise Unknown(f"store into the collected state inside a loop: {short(tgt, self.ev, 100)}")
+
+    def loc_root_only(self, base):
+        t = base
+        while True:
+            if t in self.m.env:
+                return self.m.env[t]
+            if t[0] == "loopres":
+                t = t[3]
+            elif t[0] == "loopcur":
+                return None if not hasattr(self, "cursor_roots") else self.cursor_roots.get((t[1], t[2]))
+            elif t[0] == "idx":
+                t = t[1]
+            elif is_call(t, name=ST + "_nested_dict_get") and t[2]:
+                t = t[2][0]
+            else:
+                try:
+                    return self.m.ev(t)
+                except Unknown:
+                    return None
+
+    def call(self, t, inner, in_loop, ln):
+        m = self.m
+        fn = t[1]
+        if is_call(t, name=ST + "_nested_dict_set") and len(t[2]) == 4:
+            if in_loop:
+                raise Unknown("_nested_dict_set inside an inner loop")
+            root, pre = self.loc(t[2][0])
+            p = m.ev(t[2][1])
+            if not isinstance(p, (list, tuple)):
+                raise Unknown(f"path {p!r}")
+            if self.tracked(root):
+                self.out.append(("write", pre + tuple(p) + (m.ev(t[2][2]),), m.ev(t[2][3]), ln))
+            return
+        if fn[0] != "attr":
+            return
+        base, meth = fn[1], fn[2]
+        if base == NS and meth in ("append", "pop", "clear", "extend", "insert", "remove"):
+            if in_loop:
+                raise Unknown("namespace stack mutated inside an inner loop")
+            self.out.append((meth,) + tuple(m.ev(a) for a in t[2]))
+            return
+        if meth in ("update", "setdefault", "pop", "clear", "popitem"):
+            root = self.loc_root_only(base)
+            if not self.tracked(root):
+                return
+            if meth == "setdefault" and len(t[2]) == 2 and t[2][1] == ("dict", ()):
+                return   # creating a missing node
+            if meth == "update" and len(t[2]) == 1 and not in_loop:
+                root, pre = self.loc(base)
+                self.out.append(("merge", pre, m.ev(t[2][0]), t[2][0], ln))
+                return
+            self.out.append(("weak", meth, short(t, self.ev, 100), ln))
+
+
+# ---------------------------------------------------------------------------------------------------------------- interpreter
+class Interp:
+    """Anchors of State.eval_jaxpr_state found by role: the equation's inputs, its bind parameters, the unwrapped primitive, the
+    value written back for the equation's outputs."""
+
+    def __init__(self, ctx):
+        self.ctx = ctx
+        self.ev = ev = mk_ev(ctx)
+        self.dotted = ST + "State.eval_jaxpr_state"
+        self.s = s = summarize(ctx, ev, self.dotted)
+        self.loc = func_loc(ctx, self.dotted)
+        calls = [e[2] for e in s.events if e[1] == "call"]
+        inv = [t for t in calls if t[1][0] == "name" and t[1][1].split(".")[-1] in ("safe_map", "map") and len(t[2]) == 2 and t[2][1][0] == "attr" and t[2][1][2] == "invars"]
+        ctx.need(bool(inv), "State.eval_jaxpr_state: read of the equation's inputs not found (anchor vanished)")
+        self.INVALS = inv[0]
+        self.EQN = inv[0][2][1][1]
+        gbp = [t for t in calls if t[1][0] == "attr" and t[1][2] == "get_bind_params"]
+        self.GBP = gbp[0] if gbp else None
+        unw = [t for t in calls if is_call(t, name=PJ + "PPPrimitive.unwrap")]
+        self.UNW = unw[0] if unw else None
+        ctx.need(self.UNW is not None or self.GBP is not None, "State.eval_jaxpr_state: neither get_bind_params nor PPPrimitive.unwrap found (anchor vanished)")
+        wr = [t for t in calls if t[1][0] == "name" and t[1][1].split(".")[-1] in ("safe_map", "map") and len(t[2]) == 3 and t[2][1] == ("attr", self.EQN, "outvars")]
+        ctx.need(len(wr) >= 1, "State.eval_jaxpr_state: write-back of the equation's outputs not found (anchor vanished)")
+        self.OUT = wr[-1][2][2]
+
+    def model(self, prim, params, inner, invals=None, stack=None, extra=None):
+        m = Model(funcs=FUNCS)
+        primv = Opq("name", prim) if isinstance(prim, str) else prim
+        if self.UNW is not None:
+            m.bind(self.UNW, (primv, inner))
+        m.bind(("attr", self.EQN, "primitive"), primv if self.UNW is None else Opq("wrapped-primitive"))
+        if self.GBP is not None:
+            m.bind(self.GBP, (["sf0"], params))
+        m.bind(("attr", self.EQN, "params"), params)
+        if invals is not None:
+            m.bind(self.INVALS, invals)
+        if stack is not None:
+            m.bind(NS, stack)
+        m.bind(CS, CSV)
+        m.bind(("attr", self.EQN, "outvars"), ["o0"])
+        for k, v in (extra or {}).items():
+            m.bind(k, v)
+        return m
+
+    def effects(self, m):
+        return Effects(m, self.ev, [CSV]).run(self.s.events)
+
+
+def writer_sentinel(ctx):
+    """The name save() tags leaf-mode values with (evaluated, not matched)."""
+    ev = mk_ev(ctx)
+    s = summarize(ctx, ev, ST + "save")
+    m = Model(funcs=FUNCS)
+    m.bind(("param", "values"), (Opq("v", 0),))
+    m.bind(("param", "tagged_values"), {})
+    names = []
+    for g, k, pl, ln, q in s.events:
+        if k == "call" and is_call(pl, name=ST + "tag_state") and not any(isinstance(c, tuple) and c and c[0] == "loop" for c, _ in g):
+            try:
+                if m.live(g):
+                    nm = ev.kwget(pl[3], "name")
+                    names.append(m.ev(nm) if nm is not None else None)
+            except Unknown:
+                pass
+    return names, s, ev
+
+
+def fmt(effs):
+    out = []
+    for e in effs:
+        if e[0] == "write":
+            out.append(f"write[{'/'.join(map(str, e[1]))}]={e[2]!r}")
+        elif e[0] == "merge":
+            out.append(f"merge[{'/'.join(map(str, e[1]))}]<-{e[2]!r}")
         else:
-            ctx.bad("ROLE-namespace-stack", f"state.State.eval_jaxpr_state[{k}]", f"only namespace_stack.{meth}", f"found {src[:200]}", ctx.loc(mod, n))
+            out.append(" ".join(str(x) for x in e[:3]))
+    return "; ".join(out) or "nothing"
+
+
+def interpreter_rules(ctx, rule="OWN-namespace-relative-store"):
+    I = Interp(ctx)
+    ev = I.ev
+    names, _, _ = writer_sentinel(ctx)
+    ctx.need(len(names) == 1 and isinstance(names[0], str), f"state.save: leaf-mode tag not found (anchor vanished): {names}")
+    SENT = names[0]
+    # --- which primitives are special-cased (by the guards on the event log)
+    from .pjaxr import events_by_kind
+    kinds = set()
+    for k in events_by_kind(I.s):
+        kinds |= (k - {"else", "common"})
+    need = {"state", "push", "pop", "scan"}
+    if kinds & need != need:
+        ctx.bad("EXH-state-dispatch", "state.State.eval_jaxpr_state", f"handles {sorted(kinds)}", f"interpreter must special-case {sorted(need)}; found {sorted(kinds)}", I.loc)
+        return
+    ctx.ok("EXH-state-dispatch", "state.State.eval_jaxpr_state", f"handles {sorted(kinds & need)}")
+
+    # --- state_p: named / leaf stores relative to the namespace stack; values pass through
+    construct = "state.State.eval_jaxpr_state[state_p]"
+    fails, through, models = {}, {}, 0
+    for wrapped in (False, True):
+        for depth in (0, 1, 2):
+            for n in (1, 2, 3):
+                for mode in ("named", "leaf"):
+                    nm = "x" if mode == "named" else SENT
+                    vals = [Opq("v", i) for i in range(n)]
+                    stack = ["a", "b"][:depth]
+                    params, inner = ({}, {"name": nm}) if wrapped else ({"name": nm}, {})
+                    m = I.model(ST + "state_p", params, inner, invals=list(vals), stack=list(stack))
+                    models += 1
+                    try:
+                        effs = I.effects(m)
+                        value = vals[0] if n == 1 else tuple(vals)
+                        if mode == "named":
+                            want = [("write", tuple(stack) + ("x",), value)]
+                        elif depth == 0:
+                            want = [("raise",)]
+                        else:
+                            want = [("write", tuple(stack), value)]
+                        got = [(e[0],) + tuple(e[1:3]) if e[0] == "write" else e[:1] + tuple(e[1:]) for e in effs]
+                        ok = len(got) == len(want) and all(a[0] == b[0] and (a[0] != "write" or (tuple(a[1]) == tuple(b[1]) and seq_eq(a[2], b[2]))) for a, b in zip(got, want))
+                        if not ok:
+                            wanttxt = "raise (leaf save outside any namespace)" if want == [("raise",)] else f"write[{'/'.join(want[0][1])}]={want[0][2]!r}"
+                            fails.setdefault((mode, "root" if depth == 0 else "nested"), f"{mode} save of {n} value(s) under namespaces {stack}: expected {wanttxt}, found {fmt(effs)}")
+                        if want != [("raise",)] and ok:
+                            out = m.ev(I.OUT)
+                            if not seq_eq(out, vals):
+                                through.setdefault("out", f"{mode} save of {n} value(s): the equation's outputs are {out!r}, not the tagged values {vals!r}")
+                    except Unknown as e:
+                        raise AnalysisError(f"{construct}: cannot evaluate the arm in model ({mode}, depth {depth}, {n} values): {e}")
+    if fails:
+        for (mode, where), msg in sorted(fails.items()):
+            key = {("named", "nested"): "named store under the namespace path", ("named", "root"): "root-level store only when the namespace stack is empty",
+                   ("leaf", "nested"): "leaf store at the innermost namespace under its parents", ("leaf", "root"): "leaf save at the root is refused"}[(mode, where)]
+            ctx.bad(rule, construct, key, msg, I.loc)
+    else:
+        ctx.ok(rule, construct, f"named, root and leaf stores are relative to the namespace stack in all {models} models (sentinel {SENT!r} shared with save())")
+    if through:
+        ctx.bad(rule, construct, "tagged values pass through unchanged", through["out"], I.loc)
+    elif not fails:
+        ctx.ok("ROLE-state-transparent", construct, "tagged values are the equation's outputs")
+
+    # --- push / pop mutate only the stack
+    for depth in (0, 1, 2):
+        for wrapped in (False, True):
+            params, inner = ({}, {"namespace": "q"}) if wrapped else ({"namespace": "q"}, {})
+            stack = ["a", "b"][:depth]
+            try:
+                m = I.model(ST + "namespace_push_p", params, inner, invals=[], stack=list(stack))
+                effs = I.effects(m)
+                good = [e[:2] for e in effs] == [("append", "q")] and seq_eq(m.ev(I.OUT), [])
+                if not good and ("push", depth) not in fails:
+                    fails[("push", depth)] = 1
+                    ctx.bad("ROLE-namespace-stack", "state.State.eval_jaxpr_state[push]", "only namespace_stack.append", f"with stack {stack}: found {fmt(effs)}; outputs {m.ev(I.OUT)!r}", I.loc)
+            except Unknown as e:
+                raise AnalysisError(f"state.State.eval_jaxpr_state[push]: cannot evaluate the arm: {e}")
+        try:
+            m = I.model(ST + "namespace_pop_p", {}, {}, invals=[], stack=list(stack))
+            effs = I.effects(m)
+            good = ([e[:1] for e in effs] == [("raise",)]) if depth == 0 else ([tuple(e) for e in effs] == [("pop",)] and seq_eq(m.ev(I.OUT), []))
+            if not good:
+                fails[("pop", depth)] = 1
+                ctx.bad("ROLE-namespace-stack", "state.State.eval_jaxpr_state[pop]", "only namespace_stack.pop", f"with stack {stack}: found {fmt(effs)}", I.loc)
+        except Unknown as e:
+            raise AnalysisError(f"state.State.eval_jaxpr_state[pop]: cannot evaluate the arm: {e}")
+    if not any(k[0] == "push" for k in fails):
+        ctx.ok("ROLE-namespace-stack", "state.State.eval_jaxpr_state[push]")
+    if not any(k[0] == "pop" for k in fails):
+        ctx.ok("ROLE-namespace-stack", "state.State.eval_jaxpr_state[pop]")
+
     # --- everything else is re-bound unchanged
-    src = " ".join(unp(s) for s in orelse)
-    if "outvals = eqn.primitive.bind(*args, **params)" in src:
-        ctx.ok("ROLE-state-transparent", "state.State.eval_jaxpr_state[else]", "other primitives re-bound with their own inputs and params")
+    construct = "state.State.eval_jaxpr_state[else]"
+    binds = [e[2] for e in I.s.events if e[1] == "call" and e[2][1] == ("attr", ("attr", I.EQN, "primitive"), "bind")]
+    ctx.need(bool(binds), f"{construct}: eqn.primitive.bind not found (anchor vanished)")
+    bad = None
+    for res in ((Opq("r", 0), Opq("r", 1)), [Opq("r", 0)], AtomV("r")):
+        params = {"p": 1}
+        vals = [Opq("v", 0), Opq("v", 1)]
+        m = I.model("jax.lax.add_p", params, {}, invals=list(vals), stack=["a"])
+        try:
+            live = []
+            for e in I.s.events:
+                if e[1] == "call" and e[2] in binds:
+                    outer, inner, loops = split_guards(e[0])
+                    if loops == 1 and m.live(outer):
+                        live.append(e[2])
+            if len(set(live)) != 1:
+                bad = f"{len(set(live))} binds executed for an ordinary primitive"
+                break
+            args, kwargs = m.args_of(live[0])
+            if not (seq_eq(args, ["sf0"] + vals) and kwargs == params):
+                bad = f"ordinary primitive re-bound with {args!r}, {kwargs!r} instead of its own sub-functions, inputs and parameters"
+                break
+            m.bind(live[0], res)
+            effs = I.effects(m)
+            if effs:
+                bad = f"ordinary primitive has side effects on the interpreter: {fmt(effs)}"
+                break
+            out = m.ev(I.OUT)
+            want = list(res) if isinstance(res, (list, tuple)) else [res]
+            if not seq_eq(out, want):
+                bad = f"bind result {res!r} written back as {out!r}"
+                break
+        except Unknown as e:
+            raise AnalysisError(f"{construct}: cannot evaluate the arm: {e}")
+    if bad:
+        ctx.bad("ROLE-state-transparent", construct, "re-bind unchanged", bad, I.loc)
     else:
-        ctx.bad("ROLE-state-transparent", "state.State.eval_jaxpr_state[else]", "re-bind unchanged", f"found {src[:200]}", ctx.loc(mod, loop))
+        ctx.ok("ROLE-state-transparent", construct, "other primitives re-bound with their own inputs and params; results written back as they are")
+
+    scan_rules(ctx, I, rule)
 
 
+def scan_rules(ctx, I, rule):
+    ev = I.ev
+    construct = "state.State.eval_jaxpr_state[scan_p]"
+    scans = [(sid, rec) for sid, rec in ev.scans.items()]
+    ctx.need(len(scans) >= 1, f"{construct}: re-issued scan not found (anchor vanished)")
+    sid, rec = scans[-1]
+    J, LEN, REV = Opq("J"), Opq("LEN"), Opq("REV")
+    params = {"jaxpr": J, "length": LEN, "reverse": REV, "num_consts": 1, "num_carry": 1, "linear": Opq("lin"), "unroll": Opq("unroll"), "_split_transpose": Opq("st")}
+    invals = [Opq("c", 0), Opq("k", 0), Opq("x", 0)]
+    body = rec.get("body") or NONE
+    statecalls = list(dict.fromkeys(x for x in subterms(body) if is_call(x) and is_call(x[1], name=ST + "state")))
+    problems = []
+    merged_ok = None
+    for depth in (0, 1, 2):
+        stack = ["a", "b"][:depth]
+        m = I.model("jax.lax.scan_p", params, {}, invals=list(invals), stack=list(stack))
+        carry, x = ev.carry_of(sid, rec["init"]), ev.elem_of(sid, rec["xs"])
+        try:
+            # the re-issued scan: same length / reverse, carry and xs are the equation's
+            kw = {k: m.ev(v) for k, v in rec["kwargs"] if k is not None}
+            if not (kw.get("length") == LEN):
+                problems.append("the re-issued scan does not use the equation's length")
+            if not (kw.get("reverse") == REV):
+                problems.append("the re-issued scan does not forward the equation's reverse flag (a reverse scan is collected - and run - forwards)")
+            if not seq_eq(m.ev(rec["init"]), [invals[1]]) or not seq_eq(m.ev(rec["xs"]), [invals[2]]):
+                problems.append(f"scan carry/xs are {m.ev(rec['init'])!r} / {m.ev(rec['xs'])!r}, not the equation's carry and scanned inputs")
+            # the body: state(body_fun)(*consts, *carry, *x) -> (carry_out, (ys, body_state))
+            if len(statecalls) != 1:
+                problems.append(f"the scan body runs the original body through state(...) {len(statecalls)} times (expected once)")
+                break
+            sc = statecalls[0]
+            m.bind(("scan_carry", sid, None), [Opq("kk")])
+            if isinstance(carry, tuple) and carry[0] in ("tuple", "list"):
+                for i, c_ in enumerate(carry[1]):
+                    m.bind(c_, [Opq("kk", i)])
+            m.bind(x, [Opq("xx")])
+            fnargs = m.seq(sc[1][2])
+            if not (len(fnargs) == 1 and isinstance(fnargs[0], Opq) and fnargs[0].parts[:1] == ("call",) and fnargs[0].parts[2] == (J,)):
+                problems.append("state(...) in the scan body is not applied to jaxpr_as_fun(params['jaxpr'])")
+            args, kwargs = m.args_of(sc)
+            kk = flat(m.ev(carry))
+            if not seq_eq(args, [invals[0]] + kk + [Opq("xx")]):
+                problems.append(f"the transformed body is called with {args!r}, not (consts, carry, scanned input)")
+            BS = Opq("BODYSTATE")
+            m.bind(("idx", sc, C(0)), [Opq("r", 0), Opq("r", 1)])
+            m.bind(("idx", sc, C(1)), BS)
+            ret = m.ev(body)
+            good = isinstance(ret, (tuple, list)) and len(ret) == 2 and seq_eq(flat(ret[0]), [Opq("r", 0)]) and isinstance(ret[1], (tuple, list)) and len(ret[1]) == 2 \
+                and seq_eq(flat(ret[1][0]), [Opq("r", 1)]) and ret[1][1] == BS
+            if not good:
+                problems.append(f"the scan body returns {ret!r}; expected (carry_out, (ys, state collected by the body)) so that saved values are stacked along the iteration axis")
+            # effects: the stacked body state merged under the enclosing namespaces; outputs = (final carry, stacked ys)
+            m.bind(("scan_final", sid), [Opq("F")])
+            effs = I.effects(m)
+            mg = [e for e in effs if e[0] == "merge"]
+            others = [e for e in effs if e[0] != "merge"]
+            if others:
+                problems.append(f"unexpected effects in the scan arm: {fmt(others)}")
+            if not mg:
+                merged_ok = (False, "scan state merged", "values saved inside scan bodies are never merged into the collected state", None)
+            else:
+                srcs_ok = all(isinstance(e[2], Opq) and e[2] == Opq("stacked", BS) for e in mg)
+                if not srcs_ok:
+                    problems.append(f"the merged state is {mg[0][2]!r}, not the stacked state collected by the scan body")
+                rel = all(tuple(e[1]) == tuple(stack) for e in mg)
+                if not rel and (merged_ok is None or merged_ok[0]):
+                    merged_ok = (False, "scan merge stores at the root",
+                                 "values saved inside a scan body are merged with `self.collected_state[name] = …` at the root, ignoring the enclosing namespace stack "
+                                 f"(with stack {stack} the merge goes to /{'/'.join(map(str, mg[0][1]))}); input: state(namespace(lambda: scan(body_with_save, …), 'ns'))", mg[0][4])
+                elif merged_ok is None:
+                    merged_ok = (True,)
+            out = m.ev(I.OUT)
+            if not seq_eq(flat(out), [Opq("F"), Opq("stacked", Opq("r", 1))]):
+                problems.append(f"the scan equation's outputs are {out!r}, not (final carry, stacked ys)")
+        except Unknown as e:
+            raise AnalysisError(f"{construct}: cannot evaluate the arm (stack depth {depth}): {e}")
+    if merged_ok is not None and not merged_ok[0]:
+        ctx.bad(rule, construct, merged_ok[1], merged_ok[2], f"{I.s.module.path}:{merged_ok[3]}" if merged_ok[3] else I.loc)
+    elif merged_ok is not None:
+        ctx.ok(rule, construct, "scan merge is relative to the enclosing namespace stack")
+    problems = list(dict.fromkeys(problems))
+    if problems:
+        ctx.bad("ROLE-state-scan", construct, "scan re-issued with same length/reverse and (ys, body_state) outputs", "; ".join(problems), I.loc)
+    else:
+        ctx.ok("ROLE-state-scan", construct, "same length/reverse; ys = (original ys, collected state) so saved values are stacked along the iteration axis")
+
+
+# ---------------------------------------------------------------------------------------------------------------- nested dict helpers
 def nested_set(ctx, rule="ALG-nested-dict-set"):
-    node, mod = fnode(ctx, ST + "_nested_dict_set")
-    src = unp(node)
-    a = [x.arg for x in node.args.args]
-    ok = a == ["d", "path", "key", "value"] and "for namespace in path" in src and "current[namespace] = {}" in src and "current = current[namespace]" in src \
-        and src.rstrip().endswith("current[key] = value") and "if namespace not in current" in src
-    if ok:
-        ctx.ok(rule, "state._nested_dict_set", "walks the path creating sub-dicts, then assigns (a later write replaces an earlier one)")
-    else:
-        ctx.bad(rule, "state._nested_dict_set", "walk path, create missing dicts, assign key", "shape changed", ctx.loc(mod, node))
+    for fname, kind in (("_nested_dict_set", "set"), ("_nested_dict_get", "get")):
+        ev = mk_ev(ctx)
+        dotted = ST + fname
+        s = summarize(ctx, ev, dotted)
+        D = Opq("d")
+        bad = None
+        for depth in (0, 1, 2):
+            m = Model(funcs=FUNCS)
+            path = ("a", "b")[:depth]
+            m.bind(("param", "d"), D)
+            m.bind(("param", "path"), path)
+            m.bind(("param", "key"), "k")
+            m.bind(("param", "value"), Opq("val"))
+            try:
+                E = Effects(m, ev, [D], outer_loops=0)
+                effs = E.run(s.events)
+                clob = [e for e in effs if e[0] == "clobber"]
+                if clob:
+                    bad = f"an existing intermediate dictionary is overwritten while walking the path ({clob[0][1]}): earlier saves under the same namespace are lost"
+                    break
+                if kind == "set":
+                    w = [e for e in effs if e[0] != "clobber"]
+                    if not (len(w) == 1 and w[0][0] == "write" and tuple(w[0][1]) == path + ("k",) and w[0][2] == Opq("val")):
+                        bad = f"with path {path}: expected d[{']['.join(path + ('k',))}] = value (a later write replaces an earlier one), found {fmt(w)}"
+                        break
+                else:
+                    root, pre = E.loc(s.ret)
+                    if not (root == D and tuple(pre) == path) or [e for e in effs if e[0] != "clobber"]:
+                        bad = f"with path {path}: returns node /{'/'.join(map(str, pre))} of {root!r}; effects {fmt(effs)}"
+                        break
+            except Unknown as e:
+                raise AnalysisError(f"state.{fname}: cannot evaluate: {e}")
+        if bad:
+            ctx.bad(rule, f"state.{fname}", "walk path, create missing dicts, assign key" if kind == "set" else "walk path, create missing dicts, return node", bad, func_loc(ctx, dotted))
+        else:
+            ctx.ok(rule, f"state.{fname}", "walks the path creating only missing sub-dicts" + (", then assigns" if kind == "set" else ", returns the node"))
+
+
+# ---------------------------------------------------------------------------------------------------------------- namespace wrapper
+def closure_result(ev, t):
+    """The closure a decorator-style return denotes: <fn>, wraps(f)(<fn>), or jit-like wrappers around it."""
+    while is_call(t) and len(t[2]) == 1 and t[2][0][0] in ("closure", "call"):
+        t = t[2][0]
+    return t if t[0] == "closure" else None
+
+
+def bind_sites(ev, events, prim):
+    """[(params kwargs dict term-wise, operand args)] of initial_style_bind(prim, …)(fn, **params)(*operands) calls in an event list."""
+    out = []
+    for g, k, pl, ln, q in events:
+        if k != "call":
+            continue
+        t = pl
+        if is_call(t) and is_call(t[1]) and is_call(t[1][1], name=PJ + "initial_style_bind"):
+            isb = t[1][1]
+            p = isb[2][0] if isb[2] else None
+            out.append((p, t[1], t, g, ln))
+    return out
 
 
 def namespace_pairing(ctx, rule="PAIR-namespace"):
-    node, mod = fnode(ctx, ST + "namespace")
-    inner = [f for f in ast.walk(node) if isinstance(f, ast.FunctionDef) and f.name != "namespace"]
-    ctx.need(len(inner) == 1, "state.namespace: wrapper not found")
-    w = inner[0]
+    ev = mk_ev(ctx)
+    dotted = ST + "namespace"
+    s = summarize(ctx, ev, dotted)
     construct = "state.namespace.namespaced_fn"
-    body = w.body
-    calls = [(i, st) for i, st in enumerate(body) if isinstance(st, ast.Expr) and isinstance(st.value, ast.Call) and unp(st.value.func) == "_namespace_push"]
-    tries = [(i, st) for i, st in enumerate(body) if isinstance(st, ast.Try)]
-    ok = len(calls) == 1 and len(tries) == 1 and calls[0][0] < tries[0][0] and [unp(a) for a in calls[0][1].value.args] == [node.args.args[1].arg]
+    cl = closure_result(ev, s.ret)
+    ctx.need(cl is not None, "state.namespace: wrapper closure not found (anchor vanished)")
+    ARGS, KW = ("param", "args"), ("param", "kwargs")
+    ev.apply_closure(cl, (("star", ARGS),), ((None, KW),))
+    evs = ev.last_closure_summary.events
+    seq = []
+    F, NSP = ("param", "f"), ("param", "ns")
+    for g, k, pl, ln, q in evs:
+        fin = any(isinstance(c, tuple) and c and c[0] == "finally" for c, _ in g)
+        exc = any(isinstance(c, tuple) and c and c[0] == "except" for c, _ in g)
+        if k == "call" and is_call(pl, name=ST + "_namespace_push"):
+            seq.append(("push", pl[2], fin, exc))
+        elif k == "call" and is_call(pl, name=ST + "_namespace_pop"):
+            seq.append(("pop", pl[2], fin, exc))
+        elif k == "call" and pl[1] == F:
+            seq.append(("f", (pl[2], pl[3]), fin, exc))
+        elif k == "try":
+            seq.append(("try", None, fin, exc))
+        elif k == "finally":
+            seq.append(("finally", None, fin, exc))
+    shape = [x[0] for x in seq]
+    ok = shape == ["push", "try", "f", "finally", "pop"]
+    why = f"found order {shape}"
     if ok:
-        t = tries[0][1]
-        fin = [unp(s) for s in t.finalbody]
-        ok = fin == ["_namespace_pop()"] and not t.handlers and any(isinstance(s, ast.Return) for s in ast.walk(ast.Module(body=t.body, type_ignores=[])))
-        inner_call = [c for s in t.body for c in ast.walk(s) if isinstance(c, ast.Call) and unp(c.func) == node.args.args[0].arg]
-        ok = ok and len(inner_call) == 1 and [unp(a) for a in inner_call[0].args] == ["*args"] and [unp(k.value) for k in inner_call[0].keywords] == ["kwargs"]
-        # no second push inside the try
-        ok = ok and "_namespace_push" not in " ".join(unp(s) for s in t.body)
+        push, _, f, _, pop = seq
+        if push[1] != (NSP,):
+            ok, why = False, f"pushes {short(push[1][0], ev, 60) if push[1] else 'nothing'} instead of the namespace given"
+        elif not pop[2]:
+            ok, why = False, "the pop is not in a finally block: an exception inside f leaves the namespace on the stack"
+        elif f[1] != ((("star", ARGS),), ((None, KW),)):
+            ok, why = False, "f is not called with the wrapper's own arguments"
+    if ok:
+        r = ev.last_closure_summary.ret
+        fcall = ("call", F, (("star", ARGS),), ((None, KW),))
+        if not any(x == fcall for x in subterms(r)):
+            ok, why = False, f"the wrapper returns {short(r, ev, 80)}, not f's result"
     if ok:
         ctx.ok(rule, construct, "push, then try: result = f(*args, **kwargs) finally: pop (exceptional exits included)")
     else:
-        ctx.bad(rule, construct, "push … try/finally pop", f"found {unp(w)[:300]}", ctx.loc(mod, w))
-    # the push primitive carries the namespace it was given; batch rules re-insert with the same parameter
-    pn, pmod = fnode(ctx, ST + "_namespace_push")
-    src = unp(pn)
-    binds = [c for c in ast.walk(pn) if isinstance(c, ast.Call) and isinstance(c.func, ast.Call) and unp(c.func.func) == "initial_style_bind"]
-    kws = [{k.arg: unp(k.value) for k in c.keywords} for c in binds]
-    good = len(binds) == 2 and {"namespace": "namespace"} in kws and {"namespace": "params.get('namespace')"} in kws \
-        and all(unp(c.func.args[0]) == "namespace_push_p" for c in binds)
-    if good:
-        ctx.ok("SIB-state-batch", "state._namespace_push", "outer bind and batch rule re-insert namespace_push_p with the same namespace")
-    else:
-        ctx.bad("SIB-state-batch", "state._namespace_push", "same primitive and namespace under vmap", f"found {kws}", ctx.loc(pmod, pn))
-    pn, pmod = fnode(ctx, ST + "_namespace_pop")
-    binds = [c for c in ast.walk(pn) if isinstance(c, ast.Call) and isinstance(c.func, ast.Call) and unp(c.func.func) == "initial_style_bind"]
-    if len(binds) == 2 and all(unp(c.func.args[0]) == "namespace_pop_p" for c in binds):
-        ctx.ok("SIB-state-batch", "state._namespace_pop")
-    else:
-        ctx.bad("SIB-state-batch", "state._namespace_pop", "same primitive under vmap", f"{len(binds)} binds", ctx.loc(pmod, pn))
+        ctx.bad(rule, construct, "push … try/finally pop", why, func_loc(ctx, dotted))
+    # --- the push/pop primitives: outer bind and batch rule re-insert the same primitive with the same parameter
+    for fname, prim, par in (("_namespace_push", "namespace_push_p", "namespace"), ("_namespace_pop", "namespace_pop_p", None)):
+        ev = mk_ev(ctx)
+        dotted = ST + fname
+        s = summarize(ctx, ev, dotted)
+        sites = bind_sites(ev, s.events, prim)
+        construct = f"state.{fname}"
+        outer = [x for x in sites if x[0] == ("name", ST + prim)]
+        ok = len(outer) == 1
+        why = f"{len(outer)} binds of {prim}"
+        batch = None
+        if ok:
+            p, inner, full, g, ln = outer[0]
+            isb = inner[1]
+            batch = ev.kwget(isb[3], "batch")
+            if par is not None and ev.kwget(inner[3], par) != ("param", par):
+                ok, why = False, f"the primitive is bound with {par}={short(ev.kwget(inner[3], par) or NONE, ev, 60)}, not the namespace given"
+            elif batch is None or batch[0] != "closure":
+                ok, why = False, "no batch rule: the push/pop is lost (or fails) under vmap"
+        if ok:
+            # the batch rule re-inserts the primitive (directly or by calling this function again) with params[par]
+            P = ("param", "params")
+            m = Model(funcs=FUNCS)
+            m.bind(P, {"namespace": "q"})
+            ev.apply_closure(batch, (("param", "vector_args"), ("param", "dims")), ((None, P),))
+            bev = ev.last_closure_summary.events
+            again = [e[2] for e in bev if e[1] == "call" and is_call(e[2], name=dotted)]
+            rebinds = [x for x in bind_sites(ev, bev, prim) if x[0] == ("name", ST + prim)]
+            try:
+                if again:
+                    vals = [m.ev(a) for a in again[0][2]]
+                    good = (vals == ["q"]) if par else (vals == [])
+                elif rebinds:
+                    v = ev.kwget(rebinds[0][1][3], par) if par else None
+                    good = (v is not None and m.ev(v) == "q") if par else True
+                else:
+                    good = False
+            except Unknown:
+                good = False
+            if not good:
+                ok, why = False, "the batch rule does not re-insert the same primitive with the same namespace: under vmap the namespace is lost or changed"
+        if ok:
+            ctx.ok("SIB-state-batch", construct, f"outer bind and batch rule re-insert {prim}" + (" with the same namespace" if par else ""))
+        else:
+            ctx.bad("SIB-state-batch", construct, "same primitive and namespace under vmap" if par else "same primitive under vmap", why, func_loc(ctx, dotted))
+
+
+# ---------------------------------------------------------------------------------------------------------------- tag_state / save / state
+def identity_ok(ev, cl):
+    """closure returns its single argument, or the tuple of its arguments when there are several."""
+    A = ("param", "args")
+    r = ev.apply_closure(cl, (("star", A),), ())
+    if r is None:
+        return False
+    for n in (1, 2, 3):
+        m = Model(funcs=FUNCS)
+        vals = tuple(Opq("v", i) for i in range(n))
+        m.bind(A, vals)
+        try:
+            out = m.ev(r)
+        except Unknown:
+            return False
+        if not (out == vals[0] if n == 1 else seq_eq(out, vals)):
+            return False
+    return True
 
 
 def tag_state_rules(ctx, rule="ROLE-tag_state"):
-    node, mod = fnode(ctx, ST + "tag_state")
+    ev = mk_ev(ctx)
+    dotted = ST + "tag_state"
+    s = summarize(ctx, ev, dotted)
     construct = "state.tag_state"
-    fns = {f.name: f for f in ast.walk(node) if isinstance(f, ast.FunctionDef)}
-    ident = fns.get("identity_fn")
-    ok = ident is not None and unp(ident.body[-1]) == "return tuple(args) if len(args) > 1 else args[0]"
-    binds = [c for c in ast.walk(node) if isinstance(c, ast.Call) and isinstance(c.func, ast.Call) and isinstance(c.func.func, ast.Call) and unp(c.func.func.func) == "initial_style_bind"]
-    outer = [c for c in binds if [unp(a) for a in c.args] == ["*values"]]
-    ok = ok and len(outer) == 1 and unp(outer[0].func.func.args[0]) == "state_p" and {k.arg: unp(k.value) for k in outer[0].func.keywords} == {"name": "name"} \
-        and unp(outer[0].func.args[0]) == "identity_fn"
+    sites = [x for x in bind_sites(ev, s.events, "state_p") if x[0] == ("name", ST + "state_p")]
+    ok = len(sites) == 1
+    why = f"{len(sites)} binds of state_p"
+    batch = None
+    if ok:
+        p, inner, full, g, ln = sites[0]
+        fn = inner[2][0] if inner[2] else None
+        batch = ev.kwget(inner[1][3], "batch")
+        if ev.kwget(inner[3], "name") != ("param", "name"):
+            ok, why = False, "state_p is not bound with the name given"
+        elif full[2] != (("star", ("param", "values")),):
+            ok, why = False, "state_p is not applied to the values given"
+        elif fn is None or fn[0] != "closure" or not identity_ok(ev, fn):
+            ok, why = False, "the function bound under state_p is not the identity on the tagged values"
+        elif not any(x == full for x in subterms(s.ret)):
+            ok, why = False, "tag_state does not return the primitive's result"
     if ok:
         ctx.ok(rule, construct, "binds state_p over the identity with the given name; values pass through")
     else:
-        ctx.bad(rule, construct, "state_p bound over the identity with name=name", "shape changed", ctx.loc(mod, node))
-    # batch rule: re-insert with same name; out dims elementwise equal to in dims
-    br = fns.get("batch_rule")
-    ctx.need(br is not None, "tag_state.batch_rule not found")
-    inner = [c for c in binds if [unp(a) for a in c.args] == ["*vector_args"]]
-    good = len(inner) == 1 and unp(inner[0].func.func.args[0]) == "state_p" and {k.arg: unp(k.value) for k in inner[0].func.keywords} == {"name": "params.get('name')"}
+        ctx.bad(rule, construct, "state_p bound over the identity with name=name", why, func_loc(ctx, dotted))
+        return
+    ctx.need(batch is not None and batch[0] == "closure", "tag_state: batch rule not found (anchor vanished)")
+    P, VA, DIMS = ("param", "params"), ("param", "vector_args"), ("param", "dims")
+    r = ev.apply_closure(batch, (VA, DIMS), ((None, P),))
+    bsum = ev.last_closure_summary
+    rebinds = [x for x in bind_sites(ev, bsum.events, "state_p") if x[0] == ("name", ST + "state_p")]
+    good = len(rebinds) == 1
+    if good:
+        p, inner, full, g, ln = rebinds[0]
+        m = Model(funcs=FUNCS)
+        m.bind(P, {"name": "nm"})
+        nm = ev.kwget(inner[3], "name")
+        fn = inner[2][0] if inner[2] else None
+        try:
+            good = nm is not None and m.ev(nm) == "nm" and full[2] == (("star", VA),) and fn is not None and fn[0] == "closure" and identity_ok(ev, fn)
+        except Unknown:
+            good = False
     if good:
         ctx.ok("SIB-state-batch", "state.tag_state.batch_rule (re-bind)", "same primitive and name on the vectorised operands")
     else:
-        ctx.bad("SIB-state-batch", "state.tag_state.batch_rule (re-bind)", "same primitive and name", "shape changed", ctx.loc(mod, br))
-    rets = [r for r in ast.walk(br) if isinstance(r, ast.Return) and isinstance(r.value, ast.Tuple) and len(r.value.elts) == 2]
-    bad = None
-    for r in rets:
-        dims = unp(r.value.elts[1])
-        multi = "for _ in result" in dims or "for" in dims
-        if multi and "dims[0]" in dims and "zip" not in dims and "enumerate" not in dims:
-            bad = r
-    if bad is not None:
+        ctx.bad("SIB-state-batch", "state.tag_state.batch_rule (re-bind)", "same primitive and name", "under vmap the tag is re-inserted with a different primitive, name, function or operands", func_loc(ctx, dotted))
+        return
+    # out dims: output i is batched like operand i
+    full = rebinds[0][2]
+    wrong = None
+    for n in (1, 2, 3):
+        m = Model(funcs=FUNCS)
+        dims = tuple(AtomV("d", i) for i in range(n))
+        m.bind(DIMS, dims)
+        m.bind(VA, tuple(Opq("va", i) for i in range(n)))
+        m.bind(P, {"name": "nm"})
+        res = AtomV("res") if n == 1 else tuple(Opq("res", i) for i in range(n))
+        m.bind(full, res)
+        try:
+            out = m.ev(r)
+        except Unknown as e:
+            raise AnalysisError(f"state.tag_state.batch_rule: cannot evaluate the returned (outputs, out_dims) for {n} operands: {e}")
+        if not (isinstance(out, (tuple, list)) and len(out) == 2):
+            wrong = (n, f"returns {out!r}")
+            break
+        outs, od = out
+        if not (seq_eq(flat(outs), flat(res)) and isinstance(od, (tuple, list)) and seq_eq(list(od), list(dims))):
+            wrong = (n, f"with operand dims {dims!r} the rule declares out dims {od!r}")
+            break
+    if wrong is None:
+        ctx.ok("SIB-state-batch", "state.tag_state.batch_rule (out dims)")
+    else:
         ctx.bad("SIB-state-batch", "state.tag_state.batch_rule (out dims)", "all outputs declared with dims[0]",
                 "a multi-value tag passes several operands through but declares every output batched like the first one: with differently batched values "
-                "(save(x, 1.0) in leaf mode under vmap) the unbatched value is mis-declared; input: vmap(namespace(lambda x: save(x, 1.0), 'n'))(xs)", ctx.loc(mod, bad))
-    else:
-        ctx.ok("SIB-state-batch", "state.tag_state.batch_rule (out dims)")
+                f"(save(x, 1.0) in leaf mode under vmap) the unbatched value is mis-declared ({wrong[1]}); input: vmap(namespace(lambda x: save(x, 1.0), 'n'))(xs)", func_loc(ctx, dotted))
 
 
 def save_and_state(ctx, rule="ROLE-save"):
-    node, mod = fnode(ctx, ST + "save")
-    src = unp(node)
-    ok = "for name, value in tagged_values.items()" in src and "result[name] = tag_state(value, name=name)" in src \
-        and "leaf_value = values if len(values) > 1 else values[0]" in src and "raise ValueError" in src
-    if ok:
-        ctx.ok(rule, "state.save", "named mode tags each value under its own name; leaf mode tags the positional value(s)")
+    names, s, ev = writer_sentinel(ctx)
+    dotted = ST + "save"
+    # leaf mode: one tag carrying the value (n = 1) or the tuple of values (n > 1), returned unchanged
+    bad = None
+    for n in (1, 2, 3):
+        m = Model(funcs=FUNCS)
+        vals = tuple(Opq("v", i) for i in range(n))
+        m.bind(("param", "values"), vals)
+        m.bind(("param", "tagged_values"), {})
+        try:
+            tags = [pl for g, k, pl, ln, q in s.events if k == "call" and is_call(pl, name=ST + "tag_state") and not any(isinstance(c, tuple) and c and c[0] == "loop" for c, _ in g) and m.live(g)]
+            if len(tags) != 1:
+                bad = f"leaf save of {n} value(s) issues {len(tags)} tags"
+                break
+            args, kwargs = m.args_of(tags[0])
+            want = vals[0] if n == 1 else vals
+            if not (len(args) == 1 and (args[0] == want if n == 1 else seq_eq(args[0], want)) and set(kwargs) == {"name"}):
+                bad = f"leaf save of {n} value(s) tags {args!r}"
+                break
+        except Unknown as e:
+            raise AnalysisError(f"state.save: cannot evaluate leaf mode: {e}")
+    # named mode: every (name, value) pair tagged under its own name
+    named = []
+    for x in subterms(("tuple", tuple(e[2] for e in s.events if e[1] in ("call", "return", "store") and isinstance(e[2], tuple)) + (s.ret,))):
+        if is_call(x, name=ST + "tag_state"):
+            nm = ev.kwget(x[3], "name")
+            if nm is not None and nm[0] == "idx" and nm[1][0] == "iter" and is_const(nm[2], 0):
+                named.append((x, nm))
+    named = list(dict.fromkeys(named))
+    if not bad:
+        if not named:
+            bad = "named save does not tag each value under its own name"
+        for x, nm in named:
+            it = nm[1]
+            src = it[2]
+            if not (x[2] == (("idx", it, C(1)),) and is_call(src) and src[1] == ("attr", ("param", "tagged_values"), "items")):
+                bad = f"named save tags {short(x, ev, 100)}: name and value do not come from the same keyword pair"
+    if bad:
+        ctx.bad(rule, "state.save", "each value tagged under its own name", bad, func_loc(ctx, dotted))
     else:
-        ctx.bad(rule, "state.save", "each value tagged under its own name", "shape changed", ctx.loc(mod, node))
-    node, mod = fnode(ctx, ST + "state")
-    inner = [f for f in ast.walk(node) if isinstance(f, ast.FunctionDef) and f.name != "state"]
-    ctx.need(len(inner) == 1, "state.state: wrapper not found")
-    src = unp(inner[0])
-    if "State(collected_state={}, namespace_stack=[])" in src and "return interpreter.eval(f, *args)" in src:
+        ctx.ok(rule, "state.save", "named mode tags each value under its own name; leaf mode tags the positional value(s)")
+    # --- state(f): a fresh interpreter (empty dict, empty stack) per call, evaluating f on the call's arguments
+    ev = mk_ev(ctx)
+    ev.inline_methods_on_ctor = False
+    dotted = ST + "state"
+    s = summarize(ctx, ev, dotted)
+    cl = closure_result(ev, s.ret)
+    ctx.need(cl is not None, "state.state: wrapper closure not found (anchor vanished)")
+    ARGS = ("param", "args")
+    r = ev.apply_closure(cl, (("star", ARGS),), ())
+    ctors = list(dict.fromkeys(x for x in subterms(r) if is_call(x, name=ST + "State")))
+    good = len(ctors) == 1
+    why = f"{len(ctors)} State(...) constructions"
+    if good:
+        c = ctors[0]
+        cs = ev.ctor_field(c, "collected_state")
+        nsf = ev.ctor_field(c, "namespace_stack")
+        want = ("call", ("attr", c, "eval"), (("param", "f"), ("star", ARGS)), ())
+        if cs != ("dict", ()):
+            good, why = False, f"the interpreter's collected_state is {short(cs or NONE, ev, 60)}, not a fresh empty dict: state leaks between calls"
+        elif nsf is not None and nsf not in (("list", ()),) and not is_const(nsf, None):
+            good, why = False, f"the interpreter's namespace_stack starts as {short(nsf, ev, 60)}"
+        elif r != want:
+            good, why = False, f"the wrapper returns {short(r, ev, 100)}, not State(...).eval(f, *args)"
+    if good:
         ctx.ok(rule, "state.state.wrapped", "fresh interpreter (empty dict, empty stack) per call")
     else:
-        ctx.bad(rule, "state.state.wrapped", "fresh State per call", f"found {src[:200]}", ctx.loc(mod, inner[0]))
-    node, mod = fnode(ctx, ST + "State.eval")
-    src = unp(node)
-    if "result = jtu.tree_unflatten(out_tree(), flat_out)" in src and "return (result, self.collected_state)" in src:
+        ctx.bad(rule, "state.state.wrapped", "fresh State per call", why, func_loc(ctx, dotted))
+    # --- State.eval returns (unchanged result, collected state)
+    ev = mk_ev(ctx)
+    dotted = ST + "State.eval"
+    s = summarize(ctx, ev, dotted)
+    r = s.ret
+    it = items(r)
+    good = it is not None and len(it) == 2 and it[1] == CS
+    if good:
+        res = it[0]
+        staged = ("call", ("call", ("name", PJ + "stage"), (("param", "fn"),), ()), (("star", ("param", "args")),), ())
+        inner = [x for x in subterms(res) if is_call(x) and x[1] == ("attr", SELF, "eval_jaxpr_state")]
+        good = is_call(res, name="jax.tree_util.tree_unflatten") and len(inner) == 1 and res[2][1] == inner[0] and any(x == staged for x in subterms(res[2][0])) \
+            and len(inner[0][2]) == 3 and all(any(x == staged for x in subterms(a)) for a in inner[0][2])
+    if good:
         ctx.ok(rule, "state.State.eval", "returns (unchanged result, collected state)")
     else:
-        ctx.bad(rule, "state.State.eval", "returns (result, collected_state)", "shape changed", ctx.loc(mod, node))
+        ctx.bad(rule, "state.State.eval", "returns (result, collected_state)", f"found {short(r, ev, 200)}", func_loc(ctx, dotted))
 
 
-RULES = [store_sites, nested_set, namespace_pairing, tag_state_rules, save_and_state]
+RULES = [interpreter_rules, nested_set, namespace_pairing, tag_state_rules, save_and_state]
 FLOOR = 12
